@@ -38,7 +38,12 @@ ImplR2   == [name |-> "R2", protocol |-> "can", type |-> "Root",
              signals |-> << [name |-> "a", fields |-> <<SigF("mux_count", [i |-> 4]), SigF("mux_signal", [s |-> "b"])>>],
                             [name |-> "p", fields |-> <<SigF("endianess", [s |-> "big"])>>],
                             [name |-> "a_0", fields |-> <<SigF("scale", [f |-> "0.5"])>>] >>]
-Impls == <<ImplRoot, ImplSin, ImplR2>>
+(* a binding of the same struct under ANOTHER protocol carries the same NAME (the parser names a binding after its struct unless
+   `as` is given) - and other per-signal options *)
+ImplRootU == [name |-> "Root", protocol |-> "uart", type |-> "Root", fields |-> <<>>,
+              signals |-> << [name |-> "a", fields |-> <<SigF("endianess", [s |-> "big"])>>],
+                             [name |-> "b", fields |-> <<SigF("mux_count", [i |-> 2]), SigF("mux_signal", [s |-> "a"])>>] >>]
+Impls == <<ImplRoot, ImplSin, ImplR2, ImplRootU>>
 
 LeafPool == { U(1), U(5), U(8), U(16), I(7), F32, En("Ea"), En("Eb"), En("Ec"), En("Ed"), En("Ee"), En("Ef"), En("Eg") }
 ScalarArr == { Arr(t, 2) : t \in {U(5), I(7), En("Ec")} } \cup { Arr(Arr(U(5), 2), 2) }
